@@ -165,6 +165,14 @@ def run(case):
                 if err > TOL:
                     viol.append(V("restart_from_callback_state_diverges", _case=sub(j), k=k,
                                   err=err))
+                # the kept state must survive being used as a checkpoint, whatever the
+                # options of the restart (here: with a gradient scaler)
+                H.solve(p, case, k + 1, checkpoint=live, gradient_scaler=(lambda *a: 0.5),
+                        **fresh(start_scaled=(k >= 3))[1])
+                bad2 = H.same_state(live, snap)
+                if bad2:
+                    viol.append(V("callback_state_mutated_by_restarting_from_it", _case=sub(j),
+                                  k=k, fields=bad2))
             except core.CaseTimeout:
                 raise
             except Exception as e:
